@@ -157,3 +157,35 @@ func VerifShardRPCHandlers() {
 		os.RemoveAll(root)
 	}
 }
+
+// ---- C16 at the shard manager: two tenants with confusable ids and the same collection and shard
+// names never share a shard object or a directory; deleting one tenant's collection leaves the
+// other's shard loaded and on disk.
+var verifConfusableIds = [][2]string{
+	{"acme|eu", "acme:eu"}, {"a b", "a_b"}, {"Bob", "bob"}, {"bob", "bob "}, {"a.b", "a_b"}, {"x", "x%20"}, {"a+b", "a b"}, {"u1", "u1~"},
+}
+
+func VerifTenantShardDirectories() {
+	root := verifRootDir()
+	sm := NewShardManager(ShardManagerConfig{RootDir: root, ShardTimeout: 30, MaxCacheSize: -1})
+	pair := verifConfusableIds[nondetIntRange(0, len(verifConfusableIds)-1)]
+	colA := models.Collection{UserId: pair[0], Id: "orders"}
+	colB := models.Collection{UserId: pair[1], Id: "orders"}
+	var sA, sB *shard.Shard
+	vassume(sm.DoWithShard(colA, "s1", func(s *shard.Shard) error { sA = s; return nil }) == nil)
+	vassume(sm.DoWithShard(colB, "s1", func(s *shard.Shard) error { sB = s; return nil }) == nil)
+	vcover("reached")
+	vassert("two-tenants-never-share-a-shard-object", sA != sB)
+	_, err := sm.DeleteCollectionShards(colB)
+	vassert("delete-ok", err == nil)
+	vassert("other-tenants-shard-stays-loaded", vhandleopen(sA))
+	vassert("other-tenants-shard-directory-stays-on-disk", vdirexists(root+"/userCollections/"+pair[0]+"/orders/s1"))
+	vassert("other-tenants-shard-still-serves-requests", sm.DoWithShard(colA, "s1", func(s *shard.Shard) error {
+		vassert("request-runs-on-an-open-shard", vhandleopen(s))
+		return nil
+	}) == nil)
+	if !vsymbolic() {
+		sm.DeleteCollectionShards(colA)
+		os.RemoveAll(root)
+	}
+}
